@@ -4,8 +4,11 @@ import core
 from . import proggen as G
 
 ID = "C20"
-AUDIT_IMPORTS = ["PortusModel.Props.C20Layout"]
-THEOREMS = ["Portus.C20.layout_same_image", "Portus.C20.comments_same_program", "Portus.C20.rendering_parses",
+AUDIT_IMPORTS = ["PortusModel.Props.C20Layout", "PortusModel.Lemmas.Accept2"]
+THEOREMS = ["Portus.Lang.Typing.well_typed_accepted", "Portus.Lang.Typing.well_typed_accepted_upd", "Portus.Lang.Typing.well_typed_image",
+            "Portus.Lang.Typing.wtSrc_accepted", "Portus.Lang.Typing.richSrc_accepted", "Portus.Lang.Typing.wellTyped_eq",
+            "Portus.Lang.Typing.finding_bare_bool_condition", "Portus.Lang.Typing.finding_guarded_target",
+            "Portus.C20.layout_same_image", "Portus.C20.comments_same_program", "Portus.C20.rendering_parses",
             "Portus.Lang.parse_render", "Portus.Lang.layout_independent", "Portus.Lang.comments_only_add_none",
             "Portus.Lang.rexpr_parses", "Portus.Lang.revents_parse", "Portus.Lang.rdefs_parse", "Portus.Lang.spelling_table",
             "Portus.C20.comments_do_not_lower", "Portus.C20.comments_irrelevant", "Portus.C20.compile_deterministic",
@@ -25,14 +28,20 @@ EXPLANATION = ("theorems: comments among statements do not lower (compileBody ig
                "both are decided here by generated programs x layouts against the real compiler")
 ASSUMPTIONS = ["documented exclusions: identifiers starting with true/false/a digit/__ (and 'volatile' in declarations); at most one comment "
                "line directly before an event; a comment must end with a newline"]
-LEVEL_TEXT = ("PARTIAL. Machine-checked proof (Lean 4): every rendering of a program tree - any run of space/tab/CR/LF at every gap (empty "
-              "where two tokens cannot merge), any spelling of each operator, any numeral of each number, comment lines before events and "
-              "among statements - is parsed back to that tree (parse_render over the nom-combinator model of the parser), hence all "
-              "renderings compile to the same image and register mapping (layout_same_image) and renderings differing only in comments "
-              "compile to the same program (comments_same_program); compiling under any two uids gives the same image; the spelling "
-              "table is unambiguous. Not a theorem: that every well-typed documented program within the limits is ACCEPTED by the type "
-              "checker/compiler - decided by the metamorphic differential check (generated programs x layouts through the real compiler "
-              "must be accepted and byte-identical, parser ASTs compared with the model's).")
+LEVEL_TEXT = ("PARTIAL. Machine-checked proof (Lean 4) of both halves of the property over the model of the parser and compiler. ACCEPTANCE: "
+              "Typing.well_typed_accepted - every parsed program that passes the declarative check WellTyped (types Num/Bool, operator "
+              "signatures, declared/built-in/local names, <= 16 report, 16 control, 6 local registers, <= 8 operator nodes per statement or "
+              "condition, literals < 2^31 or +infinity; no scopes or registers mentioned) is compiled AND serialized, also with an override "
+              "list. LAYOUT: every rendering of a program tree - any run of space/tab/CR/LF at every gap (empty where two tokens cannot "
+              "merge), any spelling of each operator, any numeral of each number, comment lines before events and among statements - "
+              "parses back to that tree (parse_render), hence all renderings compile to the same image and register mapping "
+              "(layout_same_image), comments never change the program (comments_same_program), and the uid does not either. Partial "
+              "because: WellTyped covers the stratified language (a bind nested as a value is outside it) and carries two named "
+              "restrictions that mirror the compiler (a bare boolean VARIABLE is not accepted as a condition - noBareBoolCondition; "
+              "if/!if/ewma only into declared Report/control variables - guardedTargetDeclared); identifiers the tokenizer splits "
+              "(prefixes true/false/volatile/digit/__) are excluded from the rendering relation. The metamorphic differential check "
+              "ties it to the real code: generated programs x layouts through the real compiler must be accepted and byte-identical, "
+              "every generated program the Lean check calls well typed must be accepted by the real compiler, ASTs are compared.")
 LEVEL_NOTE = "Trusts: Lean kernel for the proved parts; sampling of programs and layouts for acceptance and whitespace-invariance."
 TECHNIQUE = "Lean 4 proof of parse-of-rendering = tree (layout, spelling, numeral, comment invariance end to end) + uid independence; metamorphic differential check over layouts for acceptance; parser AST correspondence"
 
@@ -97,3 +106,26 @@ def oracle(c, impl_res):
     if ref is None:
         return None
     return ("ORC", "C20 %s @@ %s" % (impl_res, ref))
+
+
+def extra(ctx):
+    """Typing.WellTyped (Lean) on generated programs vs the REAL compiler: well typed => accepted (the theorem, checked against the code)"""
+    import core
+    rng = ctx.rng
+    n = 6000 if ctx.thorough else 600
+    srcs = []
+    for i in range(n):
+        p = G.gen_program(rng)
+        if i % 3 == 0:
+            p, _ = G.mutate_ast(rng, p)   # ill-typed / over-limit variants: the check must then say 0 or the compiler may refuse
+        srcs.append(G.render(p, G.Layout(rng, ws=rng.random() < 0.3, comments=rng.random() < 0.3, spelling=rng.choice(["sym", "word", "mix"]))))
+    impl = core.run_impl(["CMP %d %s - -" % (i, G.hx(s)) for i, s in enumerate(srcs)])
+    wt = core.run_model(["WT %d %s" % (i, G.hx(s)) for i, s in enumerate(srcs)])
+    fails, hist = [], {}
+    for i, s in enumerate(srcs):
+        a, w = impl.get(str(i), "").split(" ")[0], wt.get(str(i), "")
+        hist[(w, a)] = hist.get((w, a), 0) + 1
+        if w == "WT 1" and a != "OK":
+            fails.append({"property": ID, "kind": "failing-input", "case": "CMP x %s - -" % G.hx(s), "source": s[:1500],
+                          "relation": "Typing.WellTyped src = true (theorem well_typed_accepted: the compiler accepts) but the real compiler answered " + a})
+    return fails[:5], {"well_typed_vs_real_compiler": {"%s / compiler %s" % k: v for k, v in sorted(hist.items())}}
